@@ -44,8 +44,10 @@ def plan(pid, tier, seed):
         runs.append(("boundary-wrapping", lambda: engines.boundary(tier, seed, features=("wrapping_version",))))
     if pid in ("C05",):
         runs.append(("match", lambda: macroeng.match_enum(tier, seed)))
-    if pid in ("C15", "C16"):
+    if pid in ("C15", "C16", "C08"):
         runs.append(("ids", lambda: macroeng.ids_enum(tier, seed)))
+    if pid in ("C15", "C16"):
+        runs.append(("wdecl", lambda: macroeng.wdecl(tier, seed)))
     if pid in ("C16",):
         runs.append(("cfgq", lambda: macroeng.cfgq_enum(tier, seed)))
     if pid in ("C18",):
@@ -58,7 +60,9 @@ def plan(pid, tier, seed):
     if pid in ("C19",):
         allf = ("32_components", "events", "wrapping_version")
         if tier == "quick":
-            confs = [((), False), ((), True), (allf, False), (allf, True)]
+            # pairwise covering array over {32_components, events, wrapping_version, release}
+            confs = [((), False), ((), True), (allf, False), (allf, True),
+                     (("32_components",), True), (("events", "wrapping_version"), False), (("events",), True), (("32_components", "wrapping_version"), False)]
         else:
             import itertools
             confs = [(tuple(f for f, on in zip(allf, bits) if on), rel) for bits in itertools.product((False, True), repeat=3) for rel in (False, True)]
